@@ -44,17 +44,21 @@ def VLOOKUP(
 
     col_index_num = int(col_index_num)
 
+    if col_index_num < 1:
+        raise xlerrors.ValueExcelError('col_index_num is less than 1')
+
     if col_index_num > len(table_array.values[0]):
         raise xlerrors.ValueExcelError(
             'col_index_num is greater than the number of cols in table_array')
 
-    table_array = table_array.set_index(0)
+    # The first row whose key equals the lookup value (Excel equality: texts
+    # match case-insensitively) provides the value of the requested column.
+    for row in table_array.values:
+        if row[0] == lookup_value:
+            return row[col_index_num - 1]
 
-    if lookup_value not in table_array.index:
-        raise xlerrors.NaExcelError(
-            '`lookup_value` not in first column of `table_array`.')
-
-    return table_array.loc[lookup_value].values[0]
+    raise xlerrors.NaExcelError(
+        '`lookup_value` not in first column of `table_array`.')
 
 
 @xl.register()
@@ -79,13 +83,18 @@ def MATCH(
                 "Values must be sorted in descending order"
             )
 
+    if match_type == 1:
+        # The last position whose value does not exceed the lookup value.
+        position = 0
+        for i, val in enumerate(lookup_array):
+            if val > lookup_value:
+                break
+            position = i + 1
+        return position or xlerrors.NaExcelError("No lesser value found.")
+
     for i, val in enumerate(lookup_array):
         if val == lookup_value:
             return i + 1
-        if match_type == 1 and val > lookup_value:
-            return i or xlerrors.NaExcelError(
-                "No lesser value found."
-            )
         if match_type == -1 and val < lookup_value:
             return i or xlerrors.NaExcelError(
                 "No greater value found."
